@@ -63,6 +63,10 @@ func FromReal(v reflect.Value) *RNode {
 			n.F[sf.Name] = fv.Interface().(lexer.Token)
 		case ft == toksType:
 			n.F[sf.Name] = fv.Interface().([]lexer.Token)
+		case ft == capListType:
+			var s []string
+			s = append(s, fv.Interface().(CapList).V...)
+			n.F[sf.Name] = s
 		case ft.Kind() == reflect.String:
 			n.F[sf.Name] = fv.String()
 		case ft.Kind() == reflect.Bool:
@@ -152,7 +156,7 @@ func Compare(g *Grammar, T []lexer.Token, real *RNode, exp *Node, path string, o
 			if rs, _ := rv.(string); rs != es {
 				*out = append(*out, Diff{Path: p, Msg: fmt.Sprintf("string: real %q, reference %q", rs, es)})
 			}
-		case "strs":
+		case "strs", "cstrs":
 			es, _ := ev.([]string)
 			rs, _ := rv.([]string)
 			if fmt.Sprintf("%q", rs) != fmt.Sprintf("%q", es) {
